@@ -626,7 +626,7 @@ type c20Limits struct {
 
 func c20LimitsFor(tier string) c20Limits {
 	if tier == "thorough" {
-		return c20Limits{scenarios: 6000, maxTasks: 32, batch: 12, plainFrac: 0.25, realRuns: 60}
+		return c20Limits{scenarios: 20000, maxTasks: 32, batch: 12, plainFrac: 0.25, realRuns: 120}
 	}
 	if tier == "smoke" { // determinism self-test only
 		return c20Limits{scenarios: 32, maxTasks: 6, batch: 8, plainFrac: 0.25}
